@@ -20,7 +20,7 @@ SInit == /\ fork \in ForkEpochs /\ boot \in Boots /\ svc = "up" /\ InitRequests 
 
 SDeliver(r, d) ==
     /\ Deliver(r, d)
-    /\ hist' = Append(hist, [ev |-> "Deliver", rid |-> r, slot |-> d.slot, entries |-> d.entries,
+    /\ hist' = Append(hist, [ev |-> "Deliver", op |-> d.op, rid |-> r, slot |-> d.slot, entries |-> d.entries,
                              elig |-> elig'[r], served |-> SelectSeq(elig'[r], HasAccount)])
 
 \* the sequential code of the real services runs to the end of Attest (not replayed here: the recorded trace is
